@@ -2,9 +2,10 @@ SPECIFICATION Spec
 CONSTANTS
   Pre = {"none", "pi", "cmt", "doctype", "empty", "cempty", "bang"}
   Open = {"oa", "oattr", "ons", "osp", "sc", "scattr", "scsp"}
-  Content = {"none", "txt", "cdata", "nested", "selfnested", "ccmt", "opencdata"}
+  Content = {"none", "txt", "cdata", "nested", "selfnested", "emptytag", "ccmt", "opencdata"}
   Close = {"ca", "cns", "cb", "none"}
   Post = {"none", "sp", "elem2", "stray", "lt", "ltbang"}
+  CutWrapped = TRUE
 INVARIANTS BalancedWhenMatched StrayGoesNegative CutIsProperPrefix
 CONSTRAINT Emit
 CHECK_DEADLOCK FALSE
